@@ -109,6 +109,17 @@ def race_job(name, flavour, shape, val, secs=0, shards=1, ops=None, miri_seeds=0
     return j
 
 
+def miri_min_jobs(pid, tier, quick_seeds=36, thorough_seeds=720):
+    """Minimal stale-read hunt without the step hook (see wl_race::minimal): 18 variants spread over the seeds."""
+    n = T(tier, quick_seeds, thorough_seeds)
+    js = []
+    for val in ("arc", "tp"):
+        js.append({"name": "%s.miri.min.%s" % (pid, val), "flavour": "miri", "args": ["race", "shape=min", "nohooks", "val=" + val], "miri_seeds": n,
+                   "miri_flags": ["-Zmiri-preemption-rate=0"], "timeout": 900})
+    js.append({"name": "%s.miri.min.arc.preempt" % pid, "flavour": "miri", "args": ["race", "shape=min", "nohooks", "val=arc"], "miri_seeds": n // 2, "timeout": 900})
+    return js
+
+
 def miri_race_jobs(pid, tier, shapes_vals, quick_seeds=12, thorough_seeds=384):
     n = T(tier, quick_seeds, thorough_seeds)
     return [race_job("%s.miri.%s.%s" % (pid, sh, val), "miri", sh, val, miri_seeds=n, ops=T(tier, 8, 10)) for (sh, val) in shapes_vals]
@@ -145,9 +156,10 @@ def plan_c07():
         for val in ("tp", "arc"):
             js.append(race_job("C07.tsan." + val, "tsan", "a,b,c,d,e", val, secs=T(tier, 5, 60), shards=T(tier, 2, 4)))
         if tier == "quick":
-            js += miri_race_jobs("C07", tier, [("a", "tp"), ("b", "tp"), ("c", "tp"), ("a", "arc")], quick_seeds=12)
+            js += miri_race_jobs("C07", tier, [("a", "tp"), ("b", "tp"), ("c", "tp"), ("a", "arc")], quick_seeds=8)
         else:
             js += miri_race_jobs("C07", tier, [("a", "tp"), ("b", "tp"), ("c", "tp"), ("d", "tp"), ("e", "tp"), ("a", "arc"), ("b", "arc"), ("d", "arc")])
+        js += miri_min_jobs("C07", tier)
         return js
     return {
         "level": "exploration",
@@ -156,6 +168,7 @@ def plan_c07():
         "evidence": race_evidence,
         "required": core_required(["load.fast_confirmed", "load.fallback_confirmed", "load.fallback_helped", "load.fast_changed_debt_returned"]),
         "assumptions": [
+            "Miri's chance of producing a stale read falls with every additional atomic access in the program: the 'min' jobs therefore run without the step hook installed and with preemption rate 0 (measured on seeded change C01b: 4-7 % of seeds expose it there, 0 of 512 with the delay-fuzzing handler active).",
             "ThreadSanitizer decides happens-before from the orderings the code requests (so missing Acquire/Release edges are visible on x86) but does not model stale reads or fences; the harness uses no fences and shares nothing between workers while the workload runs.",
             "Miri emulates C11 store buffers, data races, address reuse and provenance on tiny workloads; its SC handling can deviate from C++20 in corner cases, so every Miri finding was re-derived by hand before being acted upon (DESIGN.md section 3).",
             "SeqCst-only weakenings that need store buffering through read-modify-write operations are out of reach of both tools.",
@@ -166,7 +179,7 @@ def plan_c07():
 
 PLANS = {}
 PLANS["C01"] = plan_core("C01", "c01", "ledger + sanitizers over scheduled executions", memcheck=True,
-                         extra_jobs=lambda tier, seed: miri_race_jobs("C01", tier, [("a", "tp"), ("b", "tp"), ("c", "arc"), ("e", "arc")], 8, 256))
+                         extra_jobs=lambda tier, seed: miri_race_jobs("C01", tier, [("a", "tp"), ("b", "tp"), ("c", "arc"), ("e", "arc")], 6, 256) + miri_min_jobs("C01", tier))
 PLANS["C02"] = plan_core("C02", "c02", "conservation law at quiescent points", memcheck=True,
                          extra_jobs=lambda tier, seed: miri_race_jobs("C02", tier, [("a", "tp"), ("c", "tp"), ("b", "arc")], 8, 192))
 PLANS["C03"] = plan_core("C03", "c03", "history linearizability", asan=False,
